@@ -106,6 +106,26 @@ CHECKS = {
              "hand-written API surface; g++/clang run-time equality is decided only as equal accept/reject.",
         design_ref="3.20", technique="tree / preprocessor / include-graph / clang-query rules + compile matrix + IR DAG identity between packagings and standards",
         note=TRUST_W + "; tools/bin/make-single-file run as a build step; " + TRUST_I, engine="S+W+I"),
+    "C14": dict(
+        category="exploration",
+        text="(W) per (unit pair from the library + generated cancelling pairs, rep pair): decltype of q1*q2 and q1/q2 is the raw arithmetic type "
+             "exactly when the model product/quotient is dimensionless with magnitude 1, otherwise a Quantity whose unit's dimension and magnitude "
+             "exponents (read out through probe templates) equal the model and whose rep is decltype(raw op); int_pow<-4..4>, sqrt, cbrt, 1/q units "
+             "and reps likewise; witness pairs for the integer-division guard (rejected / accepted with unblock_int_div / equivalent units / "
+             "floating reps) and as_raw_number (dimensionless and policy-safe only, identity on numbers).  (I) per (operation, unit pair, rep pair) "
+             "the IR DAG of the Au expression equals that of the raw operator or std function compiled next to it.  int_pow's value is not decided.",
+        design_ref="3.14", technique="static_assert / compile-fail witness programs against the exponent model + DAG equality of LLVM IR with raw operators",
+        note=TRUST_W + "; " + TRUST_I, engine="W+I"),
+    "C17": dict(
+        category="exploration",
+        text="(W) per (rep, period): as_quantity's unit exponents == seconds x period, rep and count kept; as_chrono_duration and the implicit "
+             "conversions return the same rep and reduced period; on the C06 ratio grid is_convertible<duration, Q> == is_convertible<corresponding "
+             "quantity, Q> == documented predicate, in both directions.  (I) duration -> quantity -> duration returns the parameter itself (identity "
+             "dataflow); mixed duration/quantity comparisons, sums and differences (both operand orders) are compared with chrono's own operator "
+             "compiled in the same TU: structurally equal DAGs, or equal affine forms / truth tables over the orderings of atoms on one scale with "
+             "Au's multipliers dividing chrono's (so Au overflows no earlier).  Divergence for NaN counts is a recorded known finding.",
+        design_ref="3.17", technique="static_assert witness programs + DAG / affine / truth-table comparison of LLVM IR against libstdc++ chrono as reference",
+        note=TRUST_W + "; " + TRUST_I + "; libstdc++ 12 <chrono>", engine="W+I"),
     "C19": dict(
         category="proof",
         text="(I) for 10 reps x sampled library and generated units, every comparison with ZERO (both orders) and q+-ZERO / "
